@@ -153,8 +153,9 @@ Definition dec_bytes_v3_body (expected : N) (bytes : list N) (pre fl sh : N) : o
     if pre =? 1 then
       do e <- rd 8 8 bytes; Some (mk false true sh theta [e])
     else
-      do n <- rd 4 8 bytes;
       let start := if has_theta then 24%nat else 16%nat in
+      if (length bytes <? start)%nat then None else
+      do n <- rd 4 8 bytes;
       if too_many n 8 (length bytes) then None else
       do ents <- rd_entries (N.to_nat n) (skipn start bytes);
       Some (mk false (N.testbit fl 4) sh theta ents).
@@ -329,6 +330,9 @@ Lemma too_many_img s rest k : length (enc_v3 s) = (k + 8 * length (k_entries s))
   too_many (nent s) 8 (length (enc_v3 s ++ rest)) = false.
 Proof. intros Hlen. unfold too_many. apply N.ltb_ge. rewrite app_length, Hlen. unfold nent. lia. Qed.
 
+Lemma len_guard_img s rest k m : length (enc_v3 s) = (k + m)%nat -> (length (enc_v3 s ++ rest) <? k)%nat = false.
+Proof. intros Hlen. apply Nat.ltb_ge. rewrite app_length, Hlen. lia. Qed.
+
 Theorem v3_roundtrip_bytes s : wf s -> forall rest, dec_bytes (k_seed_hash s) (enc_v3 s ++ rest) = Some s.
 Proof.
   intros Hwf rest. pose proof Hwf as (Hsh & Hth & Hents & Hn & Hemp & Hord).
@@ -343,13 +347,13 @@ Proof.
     apply mk_eq; [symmetry; assumption|reflexivity| |symmetry; assumption|].
     + symmetry. apply not_est_theta; assumption. + symmetry. apply Hord. rewrite He. cbn [length]. lia.
   - rewrite N.eqb_refl. cbn [negb]. rewrite Hpre. change (2 <? 2) with false. cbv iota. cbn [bind].
-    change (2 =? 1) with false. cbv iota. rewrite Hr. cbn [bind].
+    change (2 =? 1) with false. cbv iota. rewrite (len_guard_img s rest 16 _ Hlen), Hr. cbn [bind].
     rewrite (too_many_img s rest 16 Hlen), Hsk, nent_to_nat, rd_entries_flat by assumption. cbn [bind]. f_equal.
     apply mk_eq; [symmetry; assumption|reflexivity| |reflexivity|].
     + symmetry. apply not_est_theta; assumption.
     + rewrite flags_bit4. apply ord_norm; assumption.
   - rewrite N.eqb_refl. cbn [negb]. rewrite Hpre. change (2 <? 3) with true. cbv iota. rewrite Hrt. cbn [bind].
-    change (3 =? 1) with false. cbv iota. rewrite Hr. cbn [bind].
+    change (3 =? 1) with false. cbv iota. rewrite (len_guard_img s rest 24 _ Hlen), Hr. cbn [bind].
     rewrite (too_many_img s rest 24 Hlen), Hsk, nent_to_nat, rd_entries_flat by assumption. cbn [bind]. f_equal.
     apply mk_eq; [symmetry; assumption|reflexivity|reflexivity|reflexivity|].
     rewrite flags_bit4. apply ord_norm; assumption.
@@ -934,17 +938,14 @@ Proof.
     rd_facts. rewrite ?firstn_length, ?nent_to_nat in *. lia.
 Qed.
 
-(* The byte-buffer reader rejects every strict prefix, with one exception that the property allows: a non-empty
-   exact-mode sketch with no entries is written as 16 bytes whose last four are unused padding; the parser
-   never reads them, so a prefix of 12..15 bytes yields the very same sketch. *)
+(* The byte-buffer reader rejects every strict prefix (the parser checks that the whole preamble is present
+   before it reads the entry count, so even the unused padding bytes 12..15 must be there). *)
 Theorem v3_prefix_bytes s e n : wf s -> (n < length (enc_v3 s))%nat ->
-  dec_bytes e (firstn n (enc_v3 s)) = None \/
-  (dec_bytes e (firstn n (enc_v3 s)) = Some s /\ k_entries s = [] /\ k_empty s = false /\
-   length (enc_v3 s) = 16%nat /\ (12 <= n)%nat).
+  dec_bytes e (firstn n (enc_v3 s)) = None.
 Proof.
   intros Hwf Hn.
   destruct (Nat.lt_ge_cases n 8) as [H8|H8].
-  { left. unfold dec_bytes. rewrite firstn_length.
+  { unfold dec_bytes. rewrite firstn_length.
     destruct (Nat.ltb_spec (Nat.min n (length (enc_v3 s))) 8); [reflexivity|lia]. }
   pose proof Hwf as (Hsh & _).
   destruct (v3_header s [] Hsh) as (H0 & H1 & H2 & H5 & H6 & Hl). rewrite app_nil_r in *.
@@ -954,32 +955,21 @@ Proof.
   destruct (v3_shapes s [] Hwf) as [Hem He Hpre Hb2 Hlen | e0 Hem Hest He Hpre Hb2 Hr Hlen
     | Hem Hest Hpre Hn1 Hb2 Hr Hr' Hsk Hlen | Hem Hest Hpre Hb2 Hr Hr' Hrt Hsk Hlen];
     rewrite ?app_nil_r in *; [lia|rewrite Hb2; rewrite Hpre ..].
-  - left. change (1 =? 1) with true. change (2 <? 1) with false. cbv iota. unfold bind.
+  - change (1 =? 1) with true. change (2 <? 1) with false. cbv iota. unfold bind.
     rewrite (rd_short 8 8) by (rewrite firstn_length; lia). destruct (negb _); reflexivity.
   - change (2 =? 1) with false. change (2 <? 2) with false. cbv iota. unfold bind.
-    destruct (k_entries s) as [|x r] eqn:Hents.
-    + (* no entries: the 16-byte image *)
-      cbn [length] in Hlen.
-      destruct (Nat.lt_ge_cases n 12) as [H12|H12].
-      * left. rewrite (rd_short 4 8) by (rewrite firstn_length; lia). destruct (negb _); reflexivity.
-      * destruct (k_seed_hash s =? e) eqn:Ee; cbn [negb]; [right|left; reflexivity].
-        rewrite rd_firstn, Hr by lia.
-        assert (Hn0 : nent s = 0) by (unfold nent; now rewrite Hents).
-        rewrite Hn0. unfold too_many. change (0 * 8) with 0. change (N.to_nat 0) with 0%nat.
-        destruct (N.ltb_spec (N.of_nat (length (firstn n (enc_v3 s)))) 0) as [Hc|_]; [lia|].
-        cbn [rd_entries]. split; [|repeat split; assumption || lia].
-        f_equal. apply mk_eq; try reflexivity; try (symmetry; assumption).
-        -- symmetry. apply not_est_theta; assumption.
-        -- cbn [length Nat.leb]. rewrite orb_true_r. symmetry. apply Hwf. rewrite Hents. cbn [length]. lia.
-    + left. destruct (negb _); [reflexivity|].
-      destruct (rd 4 8 (firstn n (enc_v3 s))) as [n0|] eqn:E48; [|reflexivity].
-      apply rd_prefix in E48. destruct E48 as [E48 _]. rewrite Hr in E48. apply some_inj' in E48. subst n0.
-      destruct (too_many _ _ _); [reflexivity|].
-      rewrite rd_entries_short; [reflexivity|].
-      rewrite skipn_length, firstn_length, nent_to_nat, Hents. cbn [length] in *. lia.
-  - left. change (3 =? 1) with false. change (2 <? 3) with true. cbv iota. unfold bind.
+    destruct (negb _); [reflexivity|].
+    destruct (Nat.ltb_spec (length (firstn n (enc_v3 s))) 16) as [|Hge]; [reflexivity|].
+    rewrite firstn_length in Hge.
+    destruct (rd 4 8 (firstn n (enc_v3 s))) as [n0|] eqn:E48; [|reflexivity].
+    apply rd_prefix in E48. destruct E48 as [E48 _]. rewrite Hr in E48. apply some_inj' in E48. subst n0.
+    destruct (too_many _ _ _); [reflexivity|].
+    rewrite rd_entries_short; [reflexivity|].
+    rewrite skipn_length, firstn_length, nent_to_nat. lia.
+  - change (3 =? 1) with false. change (2 <? 3) with true. cbv iota. unfold bind.
     destruct (negb _); [reflexivity|].
     destruct (rd 8 16 (firstn n (enc_v3 s))) as [t0|] eqn:E816; [|reflexivity].
+    destruct (Nat.ltb_spec (length (firstn n (enc_v3 s))) 24) as [|Hge]; [reflexivity|].
     destruct (rd 4 8 (firstn n (enc_v3 s))) as [n0|] eqn:E48; [|reflexivity].
     apply rd_prefix in E48. destruct E48 as [E48 _]. rewrite Hr in E48. apply some_inj' in E48. subst n0.
     apply rd_prefix in E816. destruct E816 as [_ E816].
